@@ -428,6 +428,21 @@ impl VM {
                 let _ = self.exec_prop_eth(eth.clone(), layer, None, line);
             }
         }
+        // A layer property can only be assigned a layer object of its own kind
+        if let Some(val) = &setval {
+            if matches!(prop, PacketPropType::Vlan | PacketPropType::Ipv4 | PacketPropType::Ipv6)
+                && !matches!(
+                    (prop, val.as_ref()),
+                    (PacketPropType::Vlan, Object::Vlan(_))
+                        | (PacketPropType::Ipv4, Object::Ipv4(_))
+                        | (PacketPropType::Ipv6, Object::Ipv6(_))
+                        | (PacketPropType::Udp, Object::Udp(_))
+                        | (PacketPropType::Tcp, Object::Tcp(_))
+                )
+            {
+                return Err(RTError::new("Invalid value for a layer property", line));
+            }
+        }
         // A named layer property follows the selector field, like $n does:
         // a layer the header does not announce is not there
         if setval.is_none() && matches!(prop, PacketPropType::Vlan | PacketPropType::Ipv4 | PacketPropType::Ipv6) {
@@ -437,7 +452,8 @@ impl VM {
                 EtherTypes::Ipv6 => Some(PacketPropType::Ipv6),
                 _ => None,
             };
-            // A layer that was parsed (or assigned) earlier stays reachable under its own name
+            // A layer that was parsed (or assigned) earlier stays reachable under its own name;
+            // a cached error object is the selected layer's own (truncated) result
             let cached = eth.inner.borrow().as_ref().map(|inner| {
                 matches!(
                     (prop, inner.as_ref()),
@@ -446,17 +462,12 @@ impl VM {
                         | (PacketPropType::Ipv6, Object::Ipv6(_))
                         | (PacketPropType::Udp, Object::Udp(_))
                         | (PacketPropType::Tcp, Object::Tcp(_))
-                        | (_, Object::Err(_))
-                )
+                ) || (matches!(inner.as_ref(), Object::Err(_)) && selected == Some(prop))
             });
-            if cached != Some(true) {
-                if selected != Some(prop) {
-                    return Ok(Rc::new(Object::Null));
-                }
-                // the cache holds a layer of another kind: parse the selected one afresh
-                if cached == Some(false) {
-                    eth.inner.replace(None);
-                }
+            // Once a layer has been materialised the chain below this header is fixed: another
+            // kind of layer is not there (and the materialised one is never dropped implicitly)
+            if cached == Some(false) || (cached.is_none() && selected != Some(prop)) {
+                return Ok(Rc::new(Object::Null));
             }
         }
         let obj = match prop {
@@ -592,6 +603,21 @@ impl VM {
                 let _ = self.exec_prop_vlan(vlan.clone(), layer, None, line);
             }
         }
+        // A layer property can only be assigned a layer object of its own kind
+        if let Some(val) = &setval {
+            if matches!(prop, PacketPropType::Vlan | PacketPropType::Ipv4 | PacketPropType::Ipv6)
+                && !matches!(
+                    (prop, val.as_ref()),
+                    (PacketPropType::Vlan, Object::Vlan(_))
+                        | (PacketPropType::Ipv4, Object::Ipv4(_))
+                        | (PacketPropType::Ipv6, Object::Ipv6(_))
+                        | (PacketPropType::Udp, Object::Udp(_))
+                        | (PacketPropType::Tcp, Object::Tcp(_))
+                )
+            {
+                return Err(RTError::new("Invalid value for a layer property", line));
+            }
+        }
         // A named layer property follows the selector field, like $n does:
         // a layer the header does not announce is not there
         if setval.is_none() && matches!(prop, PacketPropType::Vlan | PacketPropType::Ipv4 | PacketPropType::Ipv6) {
@@ -601,7 +627,8 @@ impl VM {
                 EtherTypes::Ipv6 => Some(PacketPropType::Ipv6),
                 _ => None,
             };
-            // A layer that was parsed (or assigned) earlier stays reachable under its own name
+            // A layer that was parsed (or assigned) earlier stays reachable under its own name;
+            // a cached error object is the selected layer's own (truncated) result
             let cached = vlan.inner.borrow().as_ref().map(|inner| {
                 matches!(
                     (prop, inner.as_ref()),
@@ -610,17 +637,12 @@ impl VM {
                         | (PacketPropType::Ipv6, Object::Ipv6(_))
                         | (PacketPropType::Udp, Object::Udp(_))
                         | (PacketPropType::Tcp, Object::Tcp(_))
-                        | (_, Object::Err(_))
-                )
+                ) || (matches!(inner.as_ref(), Object::Err(_)) && selected == Some(prop))
             });
-            if cached != Some(true) {
-                if selected != Some(prop) {
-                    return Ok(Rc::new(Object::Null));
-                }
-                // the cache holds a layer of another kind: parse the selected one afresh
-                if cached == Some(false) {
-                    vlan.inner.replace(None);
-                }
+            // Once a layer has been materialised the chain below this header is fixed: another
+            // kind of layer is not there (and the materialised one is never dropped implicitly)
+            if cached == Some(false) || (cached.is_none() && selected != Some(prop)) {
+                return Ok(Rc::new(Object::Null));
             }
         }
         let obj = match prop {
@@ -767,6 +789,21 @@ impl VM {
                 let _ = self.exec_prop_ipv4(ipv4.clone(), layer, None, line);
             }
         }
+        // A layer property can only be assigned a layer object of its own kind
+        if let Some(val) = &setval {
+            if matches!(prop, PacketPropType::Udp | PacketPropType::Tcp | PacketPropType::Ipv6)
+                && !matches!(
+                    (prop, val.as_ref()),
+                    (PacketPropType::Vlan, Object::Vlan(_))
+                        | (PacketPropType::Ipv4, Object::Ipv4(_))
+                        | (PacketPropType::Ipv6, Object::Ipv6(_))
+                        | (PacketPropType::Udp, Object::Udp(_))
+                        | (PacketPropType::Tcp, Object::Tcp(_))
+                )
+            {
+                return Err(RTError::new("Invalid value for a layer property", line));
+            }
+        }
         // A named layer property follows the selector field, like $n does:
         // a layer the header does not announce is not there
         if setval.is_none() && matches!(prop, PacketPropType::Udp | PacketPropType::Tcp | PacketPropType::Ipv6) {
@@ -776,7 +813,8 @@ impl VM {
                 Protocols::Ipv6 => Some(PacketPropType::Ipv6),
                 _ => None,
             };
-            // A layer that was parsed (or assigned) earlier stays reachable under its own name
+            // A layer that was parsed (or assigned) earlier stays reachable under its own name;
+            // a cached error object is the selected layer's own (truncated) result
             let cached = ipv4.inner.borrow().as_ref().map(|inner| {
                 matches!(
                     (prop, inner.as_ref()),
@@ -785,17 +823,12 @@ impl VM {
                         | (PacketPropType::Ipv6, Object::Ipv6(_))
                         | (PacketPropType::Udp, Object::Udp(_))
                         | (PacketPropType::Tcp, Object::Tcp(_))
-                        | (_, Object::Err(_))
-                )
+                ) || (matches!(inner.as_ref(), Object::Err(_)) && selected == Some(prop))
             });
-            if cached != Some(true) {
-                if selected != Some(prop) {
-                    return Ok(Rc::new(Object::Null));
-                }
-                // the cache holds a layer of another kind: parse the selected one afresh
-                if cached == Some(false) {
-                    ipv4.inner.replace(None);
-                }
+            // Once a layer has been materialised the chain below this header is fixed: another
+            // kind of layer is not there (and the materialised one is never dropped implicitly)
+            if cached == Some(false) || (cached.is_none() && selected != Some(prop)) {
+                return Ok(Rc::new(Object::Null));
             }
         }
         let obj = match prop {
@@ -1021,6 +1054,21 @@ impl VM {
                 let _ = self.exec_prop_ipv6(ipv6.clone(), layer, None, line);
             }
         }
+        // A layer property can only be assigned a layer object of its own kind
+        if let Some(val) = &setval {
+            if matches!(prop, PacketPropType::Udp | PacketPropType::Tcp)
+                && !matches!(
+                    (prop, val.as_ref()),
+                    (PacketPropType::Vlan, Object::Vlan(_))
+                        | (PacketPropType::Ipv4, Object::Ipv4(_))
+                        | (PacketPropType::Ipv6, Object::Ipv6(_))
+                        | (PacketPropType::Udp, Object::Udp(_))
+                        | (PacketPropType::Tcp, Object::Tcp(_))
+                )
+            {
+                return Err(RTError::new("Invalid value for a layer property", line));
+            }
+        }
         // A named layer property follows the selector field, like $n does:
         // a layer the header does not announce is not there
         if setval.is_none() && matches!(prop, PacketPropType::Udp | PacketPropType::Tcp) {
@@ -1029,7 +1077,8 @@ impl VM {
                 NextHeaders::Tcp => Some(PacketPropType::Tcp),
                 _ => None,
             };
-            // A layer that was parsed (or assigned) earlier stays reachable under its own name
+            // A layer that was parsed (or assigned) earlier stays reachable under its own name;
+            // a cached error object is the selected layer's own (truncated) result
             let cached = ipv6.inner.borrow().as_ref().map(|inner| {
                 matches!(
                     (prop, inner.as_ref()),
@@ -1038,17 +1087,12 @@ impl VM {
                         | (PacketPropType::Ipv6, Object::Ipv6(_))
                         | (PacketPropType::Udp, Object::Udp(_))
                         | (PacketPropType::Tcp, Object::Tcp(_))
-                        | (_, Object::Err(_))
-                )
+                ) || (matches!(inner.as_ref(), Object::Err(_)) && selected == Some(prop))
             });
-            if cached != Some(true) {
-                if selected != Some(prop) {
-                    return Ok(Rc::new(Object::Null));
-                }
-                // the cache holds a layer of another kind: parse the selected one afresh
-                if cached == Some(false) {
-                    ipv6.inner.replace(None);
-                }
+            // Once a layer has been materialised the chain below this header is fixed: another
+            // kind of layer is not there (and the materialised one is never dropped implicitly)
+            if cached == Some(false) || (cached.is_none() && selected != Some(prop)) {
+                return Ok(Rc::new(Object::Null));
             }
         }
         let obj = match prop {
